@@ -29,6 +29,9 @@ Input(ctx, c) ==
     [] ctx = "link" -> <<"[[a|">> \o NW(c) \o <<"]]">>
     [] ctx = "list" -> <<"*", "SP">> \o NW(c) \o <<"NL">>
     [] ctx = "cell" -> <<"{|", "NL", "|", "SP">> \o NW(c) \o <<"NL", "|}">>
+    \* several spans in one text; tags are case-insensitive and may carry blanks
+    [] ctx = "multi" -> <<"p">> \o NW(c) \o <<"m">> \o NW(c) \o <<"m">> \o NW(c) \o <<"m">> \o NW(c) \o <<"q">>
+    [] ctx = "upper" -> <<"p", "<NOWIKI >">> \o c \o <<"</NoWiki  >", "q">>
 \* T1 is the template "({{{1}}})"
 Expanded(ctx, c) ==
   CASE ctx = "top"  -> <<"p">> \o Quote(c) \o <<"q">>
@@ -36,15 +39,18 @@ Expanded(ctx, c) ==
     [] ctx = "link" -> <<"[[a|">> \o Quote(c) \o <<"]]">>
     [] ctx = "list" -> <<"*", "SP">> \o Quote(c) \o <<"NL">>
     [] ctx = "cell" -> <<"{|", "NL", "|", "SP">> \o Quote(c) \o <<"NL", "|}">>
+    [] ctx = "multi" -> <<"p">> \o Quote(c) \o <<"m">> \o Quote(c) \o <<"m">> \o Quote(c) \o <<"m">> \o Quote(c) \o <<"q">>
+    [] ctx = "upper" -> <<"p">> \o Quote(c) \o <<"q">>
 \* parse(): path of node kinds to the single text leaf, and the text it must hold
 LeafPath(ctx) ==
-  CASE ctx = "top"  -> <<>>
+  CASE ctx \in {"top", "multi", "upper"} -> <<>>
     [] ctx = "targ" -> <<"TEMPLATE">>
     [] ctx = "link" -> <<"LINK">>
     [] ctx = "list" -> <<"LIST", "LIST_ITEM">>
     [] ctx = "cell" -> <<"TABLE", "TABLE_ROW", "TABLE_CELL">>
 LeafText(ctx, c) ==
-  CASE ctx = "top"  -> <<"p">> \o Quote(c) \o <<"q">>
+  CASE ctx \in {"top", "upper"}  -> <<"p">> \o Quote(c) \o <<"q">>
+    [] ctx = "multi" -> <<"p">> \o Quote(c) \o <<"m">> \o Quote(c) \o <<"m">> \o Quote(c) \o <<"m">> \o Quote(c) \o <<"q">>
     [] ctx = "list" -> <<"SP">> \o Quote(c) \o <<"NL">>
     [] ctx = "cell" -> <<"SP">> \o Quote(c) \o <<"NL">>
     [] OTHER -> Quote(c)
